@@ -132,9 +132,24 @@ func damagedPDF(r *sim.Rand) Doc {
 	}
 	all := faults.EnumPDFFields(sp)
 	var pick []faults.Fault
-	want := sim.Pick(r, []string{"stream-body", "stream-body", "missing-ref", "missing-ref", "any"})
+	want := sim.Pick(r, []string{"stream-body", "stream-body", "missing-ref", "missing-ref", "any", "objstm"})
+	// object stream containers of the document (their header is what a member lookup parses first)
+	conts := map[int64]bool{}
+	if built := pdfw.Generate(sp).Built; built != nil && len(built.Model) > 0 {
+		for num, e := range built.Model[len(built.Model)-1] {
+			if e.Aux == "ObjStm" {
+				conts[int64(num)] = true
+			}
+		}
+	}
 	for _, f := range all {
 		switch want {
+		case "objstm":
+			// damage in the header of an object stream (the list of member numbers and offsets)
+			// or in the /N and /First that describe it: loading the stream fails half way
+			if conts[f.A] && ((f.Kind == "stream-text" && f.B>>20 < 48) || (f.Kind == "field" && (strings.HasSuffix(f.S, "K:N") || strings.HasSuffix(f.S, "K:First")))) {
+				pick = append(pick, f)
+			}
 		case "stream-body":
 			if f.Kind == "stream-body" && f.B != 4 {
 				pick = append(pick, f)
